@@ -334,6 +334,8 @@ CLAIMED["C07"] = {
     "with the logit post-rescaling): closed forms, log-Jacobian in image "
     "and log space, non-sampling fields and the other array untouched, "
     "and the round trip of the whole reparameterisation as a pair lemma; "
+    "the same methods with the log pre-rescaling (closed forms, additive "
+    "log-Jacobian, round trip of the argument of the final exponential); "
     "RescaleToBounds.__init__ (configure_pre/post_rescaling inlined): no "
     "prime prior is offered once a post-rescaling is configured, logit "
     "forces unit rescale bounds and is rejected with moving bounds; "
@@ -360,7 +362,7 @@ CLAIMED["C07"] = {
     "note": "NOT under contract (named as unverified): RescaleToBounds "
     "constructor beyond the two option families under contract (no "
     "post-rescaling / logit; default rescale bounds, no inversion, no "
-    "offset), pre-rescaling, "
+    "offset), pre-rescalings other than log, "
     "inversion (split / duplicate), update_bounds, the prime bounds under "
     "inversion, the round trip of Angle (needs facts about arctan2 / sqrt "
     "that are not proved), Angle with a sampled radius, "
